@@ -639,7 +639,7 @@ def build_logpass_records(rng, lp):
     return dfsr, data
 
 
-def random_file(rng, allow_be=True, two_files_p=0.2, layout=None):
+def random_file(rng, allow_be=True, two_files_p=0.2, layout=None, concurrent_p=0.0):
     """A LIS file with 1..2 logical files, each holding one log pass.  Returns (bytes, FileModel)."""
     fm = FileModel()
     lrs = []       # (kind, lr_type, name, bytes, logpass index, first frame, nframes)
@@ -665,14 +665,37 @@ def random_file(rng, allow_be=True, two_files_p=0.2, layout=None):
         fm.logpasses.append(lp)
         dfsr, data = build_logpass_records(rng, lp)
         lrs.append(('dfsr', 64, None, dfsr, lpi, None, None))
+        # a second, concurrent log pass in the same logical file: one format specification for normal (type 0) data and one
+        # for alternate (type 1) data, both ahead of the interleaved data records (LIS-79 data record types 0 and 1)
+        lp2 = None
+        if concurrent_p and rng.random() < concurrent_p:
+            for _ in range(20):
+                cand = random_logpass_spec(rng)
+                if cand.frames_per_record:
+                    break
+            cand.data_type = 1 - lp.data_type
+            lp2, lp2i = cand, len(fm.logpasses)
+            fm.logpasses.append(lp2)
+            dfsr2, data2 = build_logpass_records(rng, lp2)
+            lrs.append(('dfsr', 64, None, dfsr2, lp2i, None, None))
+            lp.concurrent = lp2.concurrent = True
         f = 0
         inter = rng.random() < 0.12
+        pending2 = list(zip(lp2.frames_per_record, data2)) if lp2 is not None else []
+        f2 = 0
         for k, (n, b) in enumerate(zip(lp.frames_per_record, data)):
+            while pending2 and rng.random() < 0.5:
+                n2, b2 = pending2.pop(0)
+                lrs.append(('data', lp2.data_type, None, b2, lp2i, f2, n2))
+                f2 += n2
             lrs.append(('data', lp.data_type, None, b, lpi, f, n))
             f += n
             if inter and k + 1 < len(data) and rng.random() < 0.4:
                 tb, name = random_simple_table(rng, 34)
                 lrs.append(('table', 34, name, tb, None, None, None))
+        for n2, b2 in pending2:
+            lrs.append(('data', lp2.data_type, None, b2, lp2i, f2, n2))
+            f2 += n2
         lrs.append(('file-tail', 129, None, lr_file_head_tail(129, file_name=fname), None, None, None))
     if tape:
         lrs.append(('tape-tail', 131, None, lr_reel_tape(131), None, None, None))
